@@ -64,6 +64,24 @@ PROPS = {
         'trusted': ["H-AEAD", "encoding/json decoding rule"],
         'assumptions': ["H-AEAD"],
     },
+    'C03': {
+        'proofs': ['Ww.Proofs.C03'],
+        'gen_sections': [],
+        'drivers': [{'name': 'c03'}],
+        'reasons': ['C03.'],
+        'class_fields': {},
+        'nontrivial': {},
+        'rule': "c03 driver: the provider mints really signed tokens (RS256 by the published key, by an unpublished key, alg=none, HS256 keyed with the public modulus, garbage signature, no id_token) x iss x 7 aud shapes x exp/iat/nbf "
+                "around the 5 s skew x nonce x sub x sid x acr, under 4 configurations (sid required, ACR configured / requested level, extra trusted audience, JWKS with and without alg, fetched over HTTP through the real "
+                "JwksProvider); base point + all single deviations + pairwise deviations (sampled in quick, all in thorough) + random points; each through the REAL callback; distinct = lattice point x config.",
+        'level_text': "Proof: acceptIdToken = true implies every listed check (signature under a published key with that key's algorithm, so never none / symmetric-with-public; iss; aud contains client and no untrusted extra; "
+                      "exp/iat/nbf within skew; nonce; sub; sid when required; acr present and at least the requested level, with the order substantial <= high and legacy names proved) - for every token, configuration and clock value. "
+                      "The decision model is tied to the real callback (jwx verify/validate included) on the lattice; the Spec is evaluated on 'was a session created'.",
+        'level_note': "Trusted: Lean kernel; RSA/JWS and the jwx parser and validator (their accept/reject contract is what the lattice differential-tests, incl. alg confusion); the JWKS cache; AcceptableSkew read as 5 s (Gen.Consts).",
+        'technique': 'Lean 4 proof of the acceptance decision + really-signed fault lattice through the real callback',
+        'trusted': ["H-JWS", "jwx v2.1.4 verify/validate contract (Appendix C)"],
+        'assumptions': ["H-JWS"],
+    },
     'C06': {
         'proofs': ['Ww.Proofs.C06'],
         'gen_sections': ['Meta', 'pkg/session/data.go'],
